@@ -20,7 +20,8 @@ import warnings
 import framework
 import tlc
 
-sys.path.insert(0, "/repo")
+import paths  # noqa: E402
+sys.path.insert(0, paths.REPO)
 
 
 def graphs_exhaustive(n):
